@@ -1114,7 +1114,7 @@ pub fn main(ctx: &Ctx) -> i32 {
     }
     if violation.is_none() {
         // node tier: crash points inside a full node (real write path, real compaction), see c04n.rs
-        match crate::c04n::run_tier(ctx, &stats, &work, ctx.tier.pick(4usize, 60usize)) {
+        match crate::c04n::run_tier(ctx, &stats, &work, ctx.tier.pick(3usize, 24usize)) {
             Ok(None) => {}
             Ok(Some((rp, msg))) => {
                 std::fs::remove_dir_all(&work).ok();
